@@ -417,6 +417,11 @@ listener_accept_cb(void *arg)
 		    "Connection for socket<%u>: %s", nni_sock_id(l->l_sock),
 		    nng_strerror(rv));
 		nni_listener_bump_error(l, rv);
+		// It is also what we get when a single incoming connection
+		// is aborted by its peer, so keep accepting.  If we really
+		// are shutting down the transport refuses the new accept
+		// with NNG_ECLOSED or NNG_ESTOPPED, which ends it.
+		listener_accept_start(l);
 		break;
 	case NNG_ECONNRESET: // remote condition, no cool down
 	case NNG_ETIMEDOUT:  // No need to sleep, we timed out already.
